@@ -107,6 +107,18 @@ pub fn cmd_advfuzz(args: &[String]) {
         for _ in 0..k {
             s.push_str(*r.pick(TOKENS));
         }
+        if r.chance(1, 3) {
+            // character-level noise inside an escape / quantifier / group-name context
+            const PRE: &[&str] = &["\\u", "\\u{", "\\x", "\\c", "\\k<", "\\p{", "\\P{", "{", "a{", "(?<", "\\q{", "[\\", "\\", "[\\u{", "[\\c", "[\\x", "(?", "\\u{1", "\\ud83d\\u", "a{1", "a{1,"];
+            const ALPHA: &[&str] = &["+", "-", "0", "1", "9", "a", "A", "f", "F", "g", "G", "z", "_", " ", "}", "{", ",", "=", "<", ">", "$", "é", "d", "D", "e", "3", "\\"];
+            s.clear();
+            if r.chance(1, 3) { s.push_str(*r.pick(TOKENS)); }
+            s.push_str(*r.pick(PRE));
+            let m = r.below(7);
+            for _ in 0..m { s.push_str(*r.pick(ALPHA)); }
+            if r.chance(1, 2) { s.push_str(*r.pick(&["}", ">", "]", ")", "}]", ">)a"])); }
+            if r.chance(1, 3) { s.push_str(*r.pick(TOKENS)); }
+        }
         let mut p = cps(&s);
         if r.chance(1, 10) {
             // inject a raw surrogate code point
@@ -116,5 +128,19 @@ pub fn cmd_advfuzz(args: &[String]) {
         let f = *r.pick(&["", "u", "v", "i", "iu", "iv", "m", "s"]);
         let res = try_one(&p, f);
         writeln!(w, "Z {} {} {} {}", id, if p.is_empty() { "-".to_string() } else { p.iter().map(|c| format!("{:x}", c)).collect::<Vec<_>>().join(",") }, if f.is_empty() { "-" } else { f }, res).unwrap();
+    }
+}
+
+/// syntax probe: stdin lines "<flags or -> <pattern>" -> the Z lines ref/v8_syntax.js reads
+pub fn cmd_syn() {
+    use std::io::BufRead;
+    let stdin = std::io::stdin();
+    for (id, line) in stdin.lock().lines().enumerate() {
+        let line = line.unwrap();
+        let (f, pat) = match line.split_once(' ') { Some(x) => x, None => (line.as_str(), "") };
+        let f = if f == "-" { "" } else { f };
+        let p = cps(pat);
+        let res = try_one(&p, f);
+        println!("Z {} {} {} {}", id, if p.is_empty() { "-".to_string() } else { p.iter().map(|c| format!("{:x}", c)).collect::<Vec<_>>().join(",") }, if f.is_empty() { "-" } else { f }, res);
     }
 }
